@@ -63,10 +63,16 @@ theorem C17_lfo_value_formula (l : Lfo ℝ) (dt : ℝ) (info : Info ℝ) :
   refine ⟨Lfo.update_value l dt info, Lfo.update_phase l dt info, fun b => ⟨?_, rfl⟩⟩
   simp [Lfo.new, tau_real]
 
-/-- **LFO range**: while the phase is non-negative (non-negative starting phase, frequency and steps)
+/- FULL STATEMENT (false of the code, see `C17_lfo_range_fails_negative_phase`):
+     for every LFO state `l` (any phase, in particular the negative phases that a negative
+     `starting_phase` / `set_phase` in radians produces), `dt ≥ 0`, frequency ≥ 0:
+       |(l.update dt info).value − offset| ≤ |amplitude|.
+   Proved: the same with the extra hypothesis `0 ≤ l.phase`. -/
+
+/-- **LFO range** (partial: non-negative phase): while the phase is non-negative (non-negative starting phase, frequency and steps)
     the value stays within offset ± |amplitude| — all four waveforms, any tweens or links on the three
     settings (the bound is in terms of their current values). -/
-theorem C17_lfo_range (l : Lfo ℝ) (dt : ℝ) (info : Info ℝ) (hp : 0 ≤ l.phase) (hdt : 0 ≤ dt)
+theorem C17_lfo_range_partial (l : Lfo ℝ) (dt : ℝ) (info : Info ℝ) (hp : 0 ≤ l.phase) (hdt : 0 ≤ dt)
     (hf : 0 ≤ (l.update dt info).frequency.raw) :
     |(l.update dt info).value - (l.update dt info).offset.raw| ≤ |(l.update dt info).amplitude.raw| := by
   have hph : 0 ≤ (l.update dt info).phase := by
@@ -79,7 +85,7 @@ theorem C17_lfo_range (l : Lfo ℝ) (dt : ℝ) (info : Info ℝ) (hp : 0 ≤ l.p
     _ = |(l.update dt info).amplitude.raw| := mul_one _
 
 /-- … for a whole run of updates (any partition of time): the bound holds after the last update. -/
-theorem C17_lfo_range_run (info : Info ℝ) : ∀ (dts : List ℝ) (l : Lfo ℝ), dts ≠ [] → 0 ≤ l.phase →
+theorem C17_lfo_range_run_partial (info : Info ℝ) : ∀ (dts : List ℝ) (l : Lfo ℝ), dts ≠ [] → 0 ≤ l.phase →
     Lfo.FreqNonneg l info dts →
     |(l.run info dts).value - (l.run info dts).offset.raw| ≤ |(l.run info dts).amplitude.raw| := by
   intro dts
@@ -89,7 +95,7 @@ theorem C17_lfo_range_run (info : Info ℝ) : ∀ (dts : List ℝ) (l : Lfo ℝ)
     intro l _ hp hf
     obtain ⟨hdt, hf1, hrest⟩ := hf
     cases rest with
-    | nil => exact C17_lfo_range l dt info hp hdt hf1
+    | nil => exact C17_lfo_range_partial l dt info hp hdt hf1
     | cons d2 r2 =>
       have hph : 0 ≤ (l.update dt info).phase := by
         rw [Lfo.update_phase_nonneg l dt info hp hdt hf1]; exact Int.fract_nonneg _
@@ -121,20 +127,45 @@ theorem C17_lfo_range_fails_negative_phase :
   rw [trunc_neg _ (by norm_num), hc2]
   norm_num
 
-/-- **phase accumulation, any partition of time**: after a non-empty run of updates with non-negative
+/-- **phase accumulation modulo one, unconditionally**: for every run (any signs of steps, frequencies and
+    starting phase) the phase differs from `φ₀ + Σ dtᵢ·fᵢ` by a whole number of cycles. -/
+theorem C17_lfo_phase_congruent (info : Info ℝ) : ∀ (dts : List ℝ) (l : Lfo ℝ),
+    ∃ n : ℤ, (l.run info dts).phase = l.phase + Lfo.advance l info dts - n := by
+  intro dts
+  induction dts with
+  | nil => intro l; exact ⟨0, by simp [Lfo.run, Lfo.advance]⟩
+  | cons dt rest ih =>
+    intro l
+    obtain ⟨n, hn⟩ := ih (l.update dt info)
+    have hstep : ∃ k : ℤ, (l.update dt info).phase = l.phase + dt * (l.update dt info).frequency.raw - k := by
+      rw [Lfo.update_phase, rem1_real]
+      unfold fract trunc
+      split
+      · exact ⟨⌈l.phase + dt * (l.update dt info).frequency.raw⌉, rfl⟩
+      · exact ⟨⌊l.phase + dt * (l.update dt info).frequency.raw⌋, rfl⟩
+    obtain ⟨k, hk⟩ := hstep
+    refine ⟨n + k, ?_⟩
+    simp only [Lfo.run, Lfo.advance]
+    rw [hn, hk]; push_cast; ring
+
+/- FULL STATEMENT (false of the code for a negative starting phase, same root cause as the range):
+     phase = fract(φ₀ + Σ dtᵢ·fᵢ) ∈ [0, 1) for every φ₀ and all fᵢ ≥ 0.  With φ₀ < 0 the code's phase stays
+     negative until the sum crosses zero (only the congruence above holds).  Proved: for φ₀ ≥ 0. -/
+
+/-- **phase accumulation, any partition of time** (partial: non-negative phase): after a non-empty run of updates with non-negative
     steps and frequencies, phase = fract(φ₀ + Σ dtᵢ·fᵢ) — it depends only on the accumulated advance,
     not on how time was cut into updates (`fᵢ` = the frequency parameter's value in update `i`: fixed,
     tweened or linked). -/
-theorem C17_lfo_phase (info : Info ℝ) (l : Lfo ℝ) (dt : ℝ) (dts : List ℝ) (h0 : 0 ≤ l.phase)
+theorem C17_lfo_phase_partial (info : Info ℝ) (l : Lfo ℝ) (dt : ℝ) (dts : List ℝ) (h0 : 0 ≤ l.phase)
     (hf : Lfo.FreqNonneg l info (dt :: dts)) :
     (l.run info (dt :: dts)).phase = Int.fract (l.phase + Lfo.advance l info (dt :: dts)) :=
   Lfo.run_phase info l dt dts h0 hf
 
 /-- … with a fixed frequency `f ≥ 0`: phase = fract(φ₀ + f · T), `T` the total time. -/
-theorem C17_lfo_phase_fixed_frequency (info : Info ℝ) (l : Lfo ℝ) (dt : ℝ) (dts : List ℝ) (h0 : 0 ≤ l.phase)
+theorem C17_lfo_phase_fixed_frequency_partial (info : Info ℝ) (l : Lfo ℝ) (dt : ℝ) (dts : List ℝ) (h0 : 0 ≤ l.phase)
     (hs : l.frequency.stagnant = true) (hf : 0 ≤ l.frequency.raw) (hnn : ∀ x ∈ dt :: dts, 0 ≤ x) :
     (l.run info (dt :: dts)).phase = Int.fract (l.phase + l.frequency.raw * (dt :: dts).sum) := by
-  rw [C17_lfo_phase info l dt dts h0 (Lfo.freqNonneg_fixed info _ l hs hf hnn), Lfo.advance_fixed info _ l hs]
+  rw [C17_lfo_phase_partial info l dt dts h0 (Lfo.freqNonneg_fixed info _ l hs hf hnn), Lfo.advance_fixed info _ l hs]
 
 /-! ### tweener -/
 
